@@ -39,7 +39,43 @@ def rand_label(rng, hard):
     return bytes(rng.choice(alpha) for _ in range(n))
 
 
+_CUR_ORIGIN = [None]      # the origin in force where the name is going to be written (set by gen_file)
+
+
+def _fill_labels(rng, room):
+    """labels whose wire form (without a root octet) takes exactly `room` octets (room >= 2)"""
+    out = []
+    while room > 0:
+        k = min(63, room - 1)
+        if room - 1 - k == 1:
+            k -= 1
+        out.append(bytes(rng.choice(b"abcXYZ019") for _ in range(k)))
+        room -= k + 1
+    return out
+
+
 def rand_name(rng, hard=False, maxlabels=4):
+    o = _CUR_ORIGIN[0]
+    if o is not None:
+        r = rng.random()
+        if r < 0.22:
+            # a name BELOW the current origin (so that the relative form is really used)
+            ls = [rand_label(rng, hard and rng.random() < 0.4) for _ in range(rng.choice([1, 1, 2]))] + list(o)
+            if len(wire(ls)) <= 255:
+                return ls
+        elif r < 0.27 and o:
+            # ... whose absolute form is exactly 255 / 254 / 253 octets long: the longest names there are
+            room = rng.choice([255, 255, 254, 253]) - len(wire(o))
+            if room >= 2:
+                return _fill_labels(rng, room) + list(o)
+        elif r < 0.34 and o:
+            # the origin itself (or a name below it) in ANOTHER letter case: a different spelling of an equal name,
+            # which must come back exactly as written
+            v = [bytes((c ^ 0x20) if (65 <= (c & 0xDF) <= 90 and rng.random() < 0.6) else c for c in l) for l in o]
+            if v != list(o):
+                pre = [rand_label(rng, False)] if rng.random() < 0.3 else []
+                if len(wire(pre + v)) <= 255:
+                    return pre + v
     k = rng.choice([0, 1, 1, 2, 2, 3, maxlabels])
     ls = [rand_label(rng, hard and rng.random() < 0.4) for _ in range(k)]
     while len(wire(ls)) > 255:
@@ -355,7 +391,9 @@ def gen_file(rng, caseless=False, hard=None, nlines=None):
     items = []
     line = 1
     n = nlines if nlines is not None else rng.choice([1, 2, 3, 5, 8, 12])
+    _CUR_ORIGIN[0] = None
     for _ in range(n):
+        _CUR_ORIGIN[0] = ctx.origin
         st = {"paren": False, "lines": 0, "eol": eol}
         r = rng.random()
         text = b""
